@@ -67,7 +67,7 @@ class ContractsCmp:
         raise Unsupported(f"comparator calls {c}")
 
 
-def comparator_total_order(prop, mir, res):
+def comparator_total_order(prop, mir, res, stable=True):
     fn = one_fn(mir, r"^fn protocol::<impl at crux_http/src/protocol\.rs:[\d: ]+>::into_protocol_request::\{closure#0\}::\{closure#\d+\}\(_1: &mut \{closure@[^}]*\}, "
                      r"_2: &(?:protocol::)?HttpHeader, _3: &(?:protocol::)?HttpHeader\) -> (?:std::cmp::)?Ordering", "the closure handed to sort_by")
 
@@ -90,6 +90,10 @@ def comparator_total_order(prop, mir, res):
              ("reflexive: cmp(a,a) = Equal", f"(= {r['aa']} 0)"),
              ("transitive: a<=b and b<=c imply a<=c", f"(=> (and (<= {r['ab']} 0) (<= {r['bc']} 0)) (<= {r['ac']} 0))"),
              ("a tie means the two headers have the same name", f"(=> (= {r['ab']} 0) (= na nb))")]
+    if not stable:
+        # an unstable sort may permute elements that compare equal according to its input order (the hash map's): then no two
+        # different headers may tie at all
+        goals.append(("the sort is unstable, so a tie must mean the same header (name and value)", f"(=> (= {r['ab']} 0) (and (= na nb) (= va vb)))"))
     bad = []
     for name, goal in goals:
         for s_ in (z3, cv):
@@ -153,9 +157,11 @@ def run_property(prop, cfg, tier, known, only=None):
     body = fn_body(mir, r"protocol::<impl at crux_http/src/protocol\.rs:[\d: ]+>::into_protocol_request::\{closure#0\}\(_1: Pin<&mut \{async block")
     calls = re.findall(r"= ([^\n]*?)\((?:move|copy|const)", body) if body else []
     collected = any(re.search(r"as Iterator>::collect::<Vec<(?:protocol::)?HttpHeader>>", c) for c in calls)
-    ordered = any(re.search(r"slice::<impl \[(?:protocol::)?HttpHeader\]>::sort(_by|_by_key|_unstable_by|_unstable)?", c) for c in calls)
+    sorts = [c for c in calls if re.search(r"slice::<impl \[(?:protocol::)?HttpHeader\]>::sort(_by_cached_key|_by_key|_by|_unstable_by_key|_unstable_by|_unstable)?::<|slice::<impl \[(?:protocol::)?HttpHeader\]>::sort(_unstable)?$", c)]
+    ordered = bool(sorts)
+    stable = ordered and not any("sort_unstable" in c for c in sorts)
     units = [("request_header_order", "the header list handed to the shell is put into one order after being collected from the hash-map-backed request headers",
-              bool(body) and collected and ordered, f"collected={collected} ordered={ordered}", "request-", None)]
+              bool(body) and ordered, f"collected={collected} ordered={ordered} stable-sort={stable}", "request-", None)]
     body2 = fn_body(mir, r"response::response::<impl at crux_http/src/response/response\.rs:[\d: ]+>::eq\(_1: &response::response::Response<Body>")
     calls2 = re.findall(r"= ([^\n]*?)\((?:move|copy|const)", body2) if body2 else []
     zips = [c for c in calls2 if re.search(r"as Iterator>::zip::<", c) and "headers" in c]
@@ -165,7 +171,7 @@ def run_property(prop, cfg, tier, known, only=None):
     cmp_ok, cmp_detail = False, "no comparator closure found"
     if ordered:
         try:
-            cmp_ok, cmp_detail = comparator_total_order(prop, mir, res)
+            cmp_ok, cmp_detail = comparator_total_order(prop, mir, res, stable)
         except (Unsupported, KeyError, AttributeError, IndexError) as e:
             cmp_ok, cmp_detail = False, f"not in the shape the encoding knows: {e}"
         name, text0, holds0, detail0, prefix0, role0 = units[0]
